@@ -341,7 +341,7 @@ theorem count_agrees_below (n : Nat) (h : n < u32Max) : incrCount n = .ok (n + 1
   · rw [if_neg (by omega)]
 
 /-- the arithmetic before the repair panicked on the 2^32-th frame of one aircraft: reproduced on the real `Airplanes::incr_messages`
-(2^32 calls, 147 s: `attempt to add with overflow` at `rsadsb_common/src/lib.rs:275`), repaired in /repo (see known_findings.json) -/
+(2^32 calls, 147 s: `attempt to add with overflow` at `rsadsb_common/src/lib.rs:275`), repaired by /repo commit f88e2c6 -/
 theorem count_old_panics : incrCountOld u32Max = .panic "rsadsb_common lib.rs: attempt to add with overflow" := rfl
 
 end Adsb.C01
